@@ -29,7 +29,7 @@ func init() {
 		},
 		Real:       append(append([]string{}, realAll...), "db/fs (compiled against the simulated os)", "db/postgres", "engine.Loop (fourth twin)"),
 		Stub:       append(append([]string{}, stubAll...), "OS filesystem (simfs)", "Postgres server (pgfake)", "client connection of engine.Loop (chunked reader, recording writer)"),
-		FaultKinds: []string{"restart", "ext_error", "client_garbage", "template_lookup_error", "connection_closed", "connection_error"},
+		FaultKinds: []string{"restart", "ext_error", "client_garbage", "template_lookup_error", "client_write_error", "connection_closed", "connection_error"},
 	})
 }
 
@@ -128,6 +128,7 @@ func runC07(c *core.Ctx) *core.Outcome {
 	}
 	var inputs [][]byte
 	var tplFaults []bool
+	wrFaulted := false
 	badSaved := false
 	okReq := 0
 	restartsWithState := 0
@@ -162,6 +163,12 @@ func runC07(c *core.Ctx) *core.Outcome {
 			L.FailTemplateThisRequest, P.FailTemplateThisRequest, M.FailTemplateThisRequest = true, true, true
 		}
 		tplFaults = append(tplFaults, tf)
+		if !tf && t.Chance(1, 20) {
+			// the client is gone when the page is written - for the three engine-driving twins alike (the
+			// Loop twin has its own connection faults)
+			L.FailWriteThisRequest, P.FailWriteThisRequest, M.FailWriteThisRequest = true, true, true
+			wrFaulted = true
+		}
 		t.End()
 		inputs = append(inputs, in)
 		sl := L.Request(in, false)
@@ -239,7 +246,7 @@ func runC07(c *core.Ctx) *core.Outcome {
 	}
 	// fourth twin: the same inputs through the library's own engine.Loop, an engine per connection,
 	// lines read in chunks from a simulated connection that is closed or fails at drawn points
-	if o.V == nil && len(L.Steps) >= 2 && t.Chance(1, 3) {
+	if o.V == nil && len(L.Steps) >= 2 && !wrFaulted && t.Chance(1, 3) {
 		wx := world.New(a, cfg)
 		wx.UseBackend()
 		defer wx.Close()
